@@ -1,7 +1,6 @@
 package main
 
 import (
-	"math/rand/v2"
 	"sort"
 
 	"verif/mon"
@@ -79,7 +78,7 @@ func streamLen(lens []int) (total int, starts []int) {
 // generate emits the deterministic boundary workload first, then the seeded
 // remainder. Case counts depend on the tier only.
 func generate(r *mon.Run, emit func(*Scenario)) int {
-	g := &generator{r: r, emit: emit, seed: uint64(r.Seed)*1_000_003 + 17, maxOps: r.Pick(20000, 400000)}
+	g := &generator{r: r, emit: emit, seed: uint64(r.Seed)*1_000_003 + 17, maxOps: r.Pick(20000, 200000)}
 	thorough := r.Thorough()
 	for _, L := range []int{0xFFFF, 0x10000, 0x10001} { // one octet per write / per read across the 16-bit edge
 		g.add(Scenario{Kind: "recv", Peer: "pipe", Class: "byte-wise/64k", Lens: []int{L}, Chunk: 1, Cut: -1})
@@ -337,7 +336,7 @@ func generate(r *mon.Run, emit func(*Scenario)) int {
 	drawSeq := func(maxFrames int) []int {
 		k := 1 + rng.IntN(maxFrames)
 		lens := make([]int, k)
-		budget := r.Pick(150000, 600000) // octets per random sequence
+		budget := r.Pick(150000, 400000) // octets per random sequence
 		for i := range lens {
 			lens[i] = drawLen()
 			if lens[i] > budget {
@@ -391,7 +390,7 @@ func generate(r *mon.Run, emit func(*Scenario)) int {
 		return 0, normCuts(cuts, total)
 	}
 	gaps := []string{"", "yield", "sleep"}
-	nRecv := r.Pick(3000, 40000)
+	nRecv := r.Pick(3000, 25000)
 	for i := 0; i < nRecv; i++ {
 		lens := drawSeq(20)
 		total, starts := streamLen(lens)
@@ -427,7 +426,7 @@ func generate(r *mon.Run, emit func(*Scenario)) int {
 		}
 		g.add(sc)
 	}
-	nSend := r.Pick(1500, 20000)
+	nSend := r.Pick(1500, 12000)
 	for i := 0; i < nSend; i++ {
 		lens := drawSeq(20)
 		if rng.IntN(25) == 0 { // an oversize payload somewhere in the sequence
@@ -456,7 +455,7 @@ func generate(r *mon.Run, emit func(*Scenario)) int {
 		}
 		g.add(sc)
 	}
-	nMix := r.Pick(600, 8000)
+	nMix := r.Pick(600, 5000)
 	for i := 0; i < nMix; i++ {
 		lens := drawSeq(12)
 		kind := "duplex"
@@ -470,6 +469,5 @@ func generate(r *mon.Run, emit func(*Scenario)) int {
 		}
 		g.add(Scenario{Kind: kind, Peer: drawPeer(), Class: "random/" + kind, Lens: lens, Fill: drawFill(), Chunk: chunk, Gap: gaps[rng.IntN(3)]})
 	}
-	_ = rand.Int
 	return deterministic
 }
